@@ -114,3 +114,35 @@ package parser
 //@   ensures len(r.buf) > 0 ==> len(r.lines) == old(len(r.lines)) + 1 && r.lineno == old(r.lineno) + 1 &&
 //@              r.lines[len(r.lines)-1] == trimSuffix(string(r.buf), "\n")
 //@   ensures len(r.buf) == 0 ==> r.lines == old(r.lines) && r.lineno == old(r.lineno)
+
+// ---------------------------------------------------------------------------------------------
+// C02: linting any input ends with a renderable verdict, never a crash.
+// A parsed rule is either an error, or exactly one of recording / alerting with its expression present.
+
+//@ spec func wellFormed(r Rule) bool = r.Error.Err != nil || ((r.AlertingRule != nil) != (r.RecordingRule != nil))
+
+//@ func validateStringMap [C02]
+//@   ensures !result0 ==> result1.Err != nil
+//@   ensures result0 ==> result1.Err == nil
+
+//@ func ensureRequiredKeys [C02]
+//@   ensures !result1 ==> result0.Error.Err != nil
+//@   ensures result1 ==> keyVal == nil || expr != nil
+
+//@ func duplicatedKeyError [C02]
+//@   ensures result0.Error.Err != nil && !result1
+//@ func invalidValueError [C02]
+//@   ensures result0.Error.Err != nil && !result1
+
+//@ func parseRule [C02]
+//@   results rule, isEmpty
+//@   ensures !isEmpty ==> wellFormed(rule)
+//@   ensures isEmpty ==> rule.AlertingRule == nil && rule.RecordingRule == nil && rule.Error.Err == nil
+
+// Strict mode hands the rule to every check, so it must be well formed too.
+//@ func parseRuleStrict [C02]
+//@   ensures wellFormed(result)
+
+// Relaxed mode, YAML inside a YAML scalar: the line after the scalar's first line is read from the file's line table.
+//@ func Parser.parseNode [C02]
+//@   at call countLeadingSpace assert node.Line < len(contentLines)
